@@ -73,11 +73,13 @@ def run(tier):
                        {'kind': kind, 'rules': p['in'], 'merged': p['out']})
         else:
             model_errors.append((kind, p, why))
-    if model_errors:
+    if model_errors and not fnd.viol:
         for kind, p, why in model_errors[:5]:
             print('MODEL ERROR: denotation says the meaning of %s changed by merging to %s, the reference parser compiles both to equivalent policies' % (p['in'], p['out']))
         print('HARNESS ERROR: the denotation is stricter than AppArmor on %d pairs (fix the harness; not a verdict)' % len(model_errors))
         return 2
+    if model_errors:
+        ev.add(model_stricter_than_reference_on_pairs=len(model_errors))       # reported next to real violations, never instead of them
     ev.add(traces_validated_against_impl=agree, conformance_pairs_compiled=len(conf), conformance_pairs_skipped_uncompilable=skip)
     ev.add(rule='state = one rule of the universe; transition = one real Rules.Merge of an ordered list (pairs of the whole universe, triples/quadruples of a reduced one); traces_validated = merged pairs on which the denotation was confirmed by the reference parser (DFA product equivalence)')
     ev.assume('comments are not part of the meaning; explicit allow == no access type; a rule without access list / signal set / capability names stands for all of them',
